@@ -206,6 +206,12 @@ FLOATS = [0.0, -0.0, 1.0, -2.0, 0.5, 3.141592653589793, 1e-320, 1e300, -7.25, 2.
 NAMES = ["tuple", "dict", "machine_name", "m 1", "µ", 'q"uote', "a_b", "list", "job_name", "type", "x" * 40, "\\n", "{}", "0"]
 
 
+# the keys by which the decoders recognise serialized objects: legal as NAMES of auxiliary operators (dict keys chosen by the caller), where they must stay data
+RESERVED_KEYS = ["qiskit_quantum_circuit", "evqe_qubit_index", "complex_number_real_value", "complex_number_imaginary_value", "evolving_ansatz_result_eigenvalue",
+                 "evqe_population_individuals", "evqe_individual_n_qubits", "base_population_evaluation_population", "quasidistribution_data", "values",
+                 "scheduled_operation", "machine_name", "evqe_layer_n_qubits", "evqe_gate_type"]
+
+
 def gen_float(rng):
     return rng.choice(FLOATS) if rng.random() < 0.6 else rng.uniform(-7, 7)
 
@@ -305,7 +311,7 @@ def gen_result(rng):
     if am == 1:
         r.aux_operators_evaluated = [gen_scalar(rng) for _ in range(rng.randint(0, 3))]
     elif am >= 2:
-        keys = rng.sample(NAMES, rng.randint(0, 3))
+        keys = rng.sample(NAMES + RESERVED_KEYS, rng.randint(0, 3))
         r.aux_operators_evaluated = {k: gen_scalar(rng) for k in keys}
     if present():
         n = rng.randint(1, 3)
